@@ -156,3 +156,42 @@ func c16NestedRun(c *core.Ctx) {
 		}
 	}
 }
+
+// Family position: the position of FETCH ABSOLUTE / RELATIVE given by a variable, an expression or a numeric
+// text, used again after other integers were computed: the same position addresses the same row every time and
+// the variable keeps its value.
+func init() {
+	core.Extend("C16", "family position: FETCH ABSOLUTE/RELATIVE with the position as variable, expression or numeric text, repeated after further integer evaluation", c16PositionRun)
+}
+
+var c16Position = []struct{ prog, want string }{
+	{"VAR @pos := 1; FETCH ABSOLUTE @pos cur INTO @v; PRINT @v; VAR @z := 41 + 1; FETCH ABSOLUTE @pos cur INTO @v; PRINT @v; PRINT @pos; FETCH ABSOLUTE 0 cur INTO @v; PRINT @v;", "20,20,1,10"},
+	{"VAR @step := 1; FETCH cur INTO @v; FETCH RELATIVE @step cur INTO @v; PRINT @v; VAR @z := 7 * 6; FETCH RELATIVE @step cur INTO @v; PRINT @v; PRINT @step; FETCH RELATIVE -2 cur INTO @v; PRINT @v;", "20,30,1,10"},
+	{"VAR @i := 0; WHILE @i < 3 DO FETCH ABSOLUTE @i cur INTO @v; PRINT @v; @i := @i + 1; END WHILE; PRINT @i;", "10,20,30,3"},
+	{"VAR @i := 2; WHILE @i >= 0 DO FETCH ABSOLUTE 2 - @i cur INTO @v; PRINT @v; VAR @w := @i * 100; @i := @i - 1; END WHILE;", "10,20,30"},
+	{"VAR @s := '2'; FETCH ABSOLUTE @s cur INTO @v; PRINT @v; VAR @z := 1 + 1; FETCH ABSOLUTE @s cur INTO @v; PRINT @v; PRINT @s;", "30,30,'2'"},
+	{"DECLARE f FUNCTION (@p) AS BEGIN VAR @r; FETCH ABSOLUTE @p cur INTO @r; RETURN @r; END; PRINT f(1); VAR @z := 3 + 4; PRINT f(1); PRINT f(2);", "20,20,30"},
+}
+
+func c16PositionRun(c *core.Ctx) {
+	dir := core.Scratch("c16position")
+	for i, tc := range c16Position {
+		if !c.Mine(int64(1000 + i)) {
+			continue
+		}
+		prog := "VAR @v; DECLARE cur CURSOR FOR SELECT 10 UNION ALL SELECT 20 UNION ALL SELECT 30; OPEN cur; " + tc.prog
+		for run := 0; run < 2; run++ {
+			env := drv.NewText(dir)
+			env.Tx.Flags.SetQuiet(true)
+			r := env.Exec(prog)
+			env.Close()
+			got := strings.Join(strings.Fields(strings.TrimSpace(r.Out)), ",")
+			c.Eval(fmt.Sprintf("position:%d", i), true)
+			if r.Panic != nil || r.Err != nil || got != tc.want {
+				c.Violate("position: FETCH ABSOLUTE/RELATIVE with a position that is not a plain literal addresses another row, or changes the variable",
+					fmt.Sprintf("%s\ncsvq prints %q (err=%v panic=%v), the cursor rows 10,20,30 and the given positions give %q", prog, got, r.Err, r.Panic, tc.want),
+					map[string]any{"family": "position", "program": prog, "want": tc.want})
+			}
+		}
+	}
+}
